@@ -116,13 +116,13 @@ def denies (k : Kernel) (pid : Nat) : Bool :=
   | some p => p.st ≠ .gone && p.behav.eperm
   | none => false
 
-def stOf (k : Kernel) (pid : Nat) : PState :=
+def stAt (k : Kernel) (pid : Nat) : PState :=
   match k.find pid with | some p => p.st | none => .gone
 
 /-- os.kill issued by the daemon itself (`kill` is the outside world's, which is always permitted): the state of
     the target at delivery, and whether the call was refused with EPERM — then nothing is delivered -/
 def killD (k : Kernel) (pid sig : Nat) : Kernel × PState × Bool :=
-  if k.tick.denies pid then (k.tick, k.tick.stOf pid, true)
+  if k.tick.denies pid then (k.tick, k.tick.stAt pid, true)
   else ((k.kill pid sig).1, (k.kill pid sig).2, false)
 
 inductive WaitRes where
